@@ -454,6 +454,9 @@ impl ChainM {
                     Some(a) => a,
                     None => return Err(Why::InvalidAddress),
                 };
+                if out.created.contains(addr) && self.st.contracts.contains_key(addr) {
+                    out.notes.push("call-to-a-contract-created-earlier-in-this-transaction");
+                }
                 if !funds.is_empty() {
                     let c = to_coins(funds);
                     if self.st.bank.can_debit(sender, &c) && sender != addr && self.st.bank.credit_overflows(addr, &c) {
